@@ -3,6 +3,7 @@
 //!   verif-harness <sub-command> [--seed N] [--tier quick|thorough] [--out file] [--replay file]
 mod aik;
 mod c03;
+mod c04;
 mod c05;
 mod c10;
 mod c08;
@@ -103,6 +104,7 @@ fn main() {
         "c20-json" => c20_json::run(&ctx),
         "c10-eval" => c10::eval(&ctx),
         "c10-gate" => c10::gate(&ctx),
+        "c04-builtin" => c04::run(&ctx),
         other => {
             eprintln!("unknown sub-command {other}");
             std::process::exit(2);
